@@ -53,6 +53,7 @@ class ConnGen:
         self.maxgen = {}
         self.titles = 0.0          # rate of messages that give the connection a title / application id
         self.unres = 0.0           # rate of messages about objects the log never saw being created (capture started mid-session)
+        self.srv = 0.07            # rate of events that hand out a server-range id (again), through whatever parent can do so
 
     # ------------------------------------------------------------------
     def latest(self, i):
@@ -214,6 +215,31 @@ class ConnGen:
         return {'e': 'msg', 'tag': self.tag, 't': t,
                 'm': {'ttype': o.type, 'tid': o.id, 'name': name, 'sent': sent, 'args': args}}
 
+    def handout(self, t):
+        """an event that creates an object with a server-range id - most often an id already handed out, by another parent
+        and / or for another interface (libwayland re-uses such ids without any delete_id)"""
+        r = self.r
+        parents = []
+        for o in self.live(lambda o: o.type in self.proto or o.type == 'zz_custom_v1'):
+            if o.type == 'zz_custom_v1':
+                parents.append((o, None))
+                continue
+            for m, desc in self.proto[o.type]['msgs'].items():
+                if self.kinds[o.type].get(m) == 'event' and m in self.usable_msgs(o.type) \
+                        and any(a['type'] == 'new_id' and a['iface'] in self.proto for a in desc):
+                    parents.append((o, m))
+        if not parents:
+            return None
+        o, m = r.choice(parents)
+        if m is not None:
+            return self.msg_on(o, m, t)
+        i = self.fresh_id(True)
+        ty = r.choice(['zz_child_v1', 'zz_child_v1', 'zz_other_v1'])
+        self.create(i, ty)
+        return {'e': 'msg', 'tag': self.tag, 't': t,
+                'm': {'ttype': o.type, 'tid': o.id, 'name': 'make', 'sent': self.server_side,
+                      'args': [{'k': 'new', 'type': ty, 'id': i}, {'k': 'int', 'v': 3}]}}
+
     def stray(self, t):
         """a message on / about an object whose creation is not in the log: recorded and shown all the same, as unresolved"""
         r = self.r
@@ -253,6 +279,10 @@ class ConnGen:
                               'args': [{'k': 'new', 'type': 'wl_registry', 'id': o.id}]}}
         if self.unres and r.random() < self.unres:
             return self.stray(t)
+        if self.srv and r.random() < self.srv:
+            ev = self.handout(t)
+            if ev is not None:
+                return ev
         if self.titles and r.random() < self.titles and self.live(lambda o: o.type == 'wl_registry'):
             ev = self.custom(t, title=True)
             if ev is not None:
@@ -388,6 +418,8 @@ class SessionGen:
             mg.learn(ev, conns)
             if r.random() < o['cmds']:
                 events.append({'in': mg.command(len(conns))})
+                while mg.__dict__.get('queue') and mg.queue[0].get('_now'):
+                    events.append({'in': mg.command(len(conns))})
         if r.random() < 0.9:
             events.append({'in': {'e': 'eof'}})
             for _ in range(r.randint(0, 3) if o['cmds'] > 0 else 0):
@@ -593,15 +625,34 @@ class MatcherGen:
     def command(self, nconn):
         """a user command; matchers are sometimes ones given before in the session, in the same spelling (a text that means
         something different the second time - a cache, an object modified in place - is only seen when it comes back)"""
-        ev = self.command_fresh(nconn)
+        import copy
         r = self.r
+        queue = self.__dict__.setdefault('queue', [])
+        if queue:
+            ev = queue.pop(0)
+            ev.pop('_now', None)
+            return ev
+        ev = self.command_fresh(nconn)
+        if ev['c'] == 'list' and ev.get('ok') and not ev.get('caperr') and nconn >= 2 and r.random() < 0.3:
+            # the same question asked of one connection and then of another, nothing happening in between
+            a, b = r.sample(range(nconn), 2)
+            for k in (a, b):
+                queue.append({'e': 'cmd', 'c': 'conn', 'arg': mrender.letters(k).upper(), '_now': True})
+                queue.append(dict(copy.deepcopy(ev), _now=True))
+            if r.random() < 0.5:
+                queue.append({'e': 'cmd', 'c': 'conn', 'arg': 'all', '_now': True})
+                queue.append(dict(copy.deepcopy(ev), _now=True))
         if ev.get('ok') and 'ast' in ev and ev['ast'] not in (mrender.STAR, mrender.BANG):
             used = self.__dict__.setdefault('used', [])
             if used and r.random() < 0.3:
-                import copy
                 ev['ast'], ev['spell'] = copy.deepcopy(r.choice(used))
             else:
                 used.append((ev['ast'], ev.get('spell')))
+            if ev['c'] in ('filter', 'break') and r.random() < 0.3:
+                # given, taken back, given again in the same words: the second time it must mean what it meant the first time
+                queue.append({'e': 'cmd', 'c': ev['c'], 'hasarg': True, 'ok': True, 'ast': r.choice([mrender.BANG, mrender.BANG, mrender.STAR]),
+                              'spell': self.spelling()})
+                queue.append(copy.deepcopy(ev))
         return ev
 
     def command_fresh(self, nconn):
